@@ -43,6 +43,12 @@ type script struct {
 	Subs      []subSpec `json:"subs"`
 	RefBuffer int       `json:"refBuffer"`
 	Perturb   uint64    `json:"perturb"`
+	// CancelAt > 0: the tracer's context is cancelled once the reference
+	// subscriber has seen that many payloads, while the (registered) senders
+	// are still sending: the tracer keeps serving them until the last one is
+	// done, and every subscriber still gets the same gap-free sequence up to
+	// the moment its channel is closed
+	CancelAt int `json:"cancelAt,omitempty"`
 }
 
 type subResult struct {
@@ -141,6 +147,19 @@ func runScript(sc script) (symptom, detail string, inconcl string, joinLeave boo
 		}()
 	}
 
+	if sc.CancelAt > 0 {
+		at := int64(sc.CancelAt)
+		if at > int64(total) {
+			at = int64(total)
+		}
+		go func() {
+			for atomic.LoadInt64(&rcount) < at {
+				runtime.Gosched()
+				time.Sleep(5 * time.Microsecond)
+			}
+			cancel()
+		}()
+	}
 	var swg sync.WaitGroup
 	for s, n := range sc.Senders {
 		s, n := s, n
@@ -200,6 +219,17 @@ func runScript(sc script) (symptom, detail string, inconcl string, joinLeave boo
 	}
 	// ---- oracle
 	// reference: every payload once, per-sender order, sentinel last
+	if sc.CancelAt > 0 {
+		// the sentinel comes from an unregistered sender after the
+		// cancellation: it may or may not get through; the payloads must
+		if n := len(refSeq); n > 0 && refSeq[n-1].Sentinel {
+			refSeq = refSeq[:n-1]
+		}
+		if len(refSeq) != total {
+			return "reference-incomplete", fmt.Sprintf("context cancelled after %d payloads: the reference subscriber received %d of the %d payloads of registered senders before its channel was closed", sc.CancelAt, len(refSeq), total), "", false
+		}
+		refSeq = append(refSeq, payload{Sentinel: true})
+	}
 	if len(refSeq) != total+1 || !refSeq[len(refSeq)-1].Sentinel {
 		return "reference-incomplete", fmt.Sprintf("reference subscriber received %d traces, want %d payloads + sentinel", len(refSeq), total), "", false
 	}
@@ -311,6 +341,9 @@ func TestC09Tracer(t *testing.T) {
 			sc.Subs = append(sc.Subs, subSpec{Buffer: rapid.IntRange(0, 16).Draw(rt, "buffer"), SubAt: rapid.IntRange(0, total).Draw(rt, "subAt"),
 				ReadN: rapid.IntRange(0, total).Draw(rt, "readN"), DelayUS: rapid.SampledFrom([]int{0, 0, 5, 50}).Draw(rt, "delay")})
 		}
+		if rapid.IntRange(0, 3).Draw(rt, "cancelMidStream") == 0 {
+			sc.CancelAt = rapid.IntRange(1, total).Draw(rt, "cancelAt")
+		}
 		hash := rec.Hash(sc)
 		rec.Begin("TestC09Tracer", hash, sc)
 		sym, det, inc, jl := runScript(sc)
@@ -321,6 +354,9 @@ func TestC09Tracer(t *testing.T) {
 		}
 		rec.End(hash, sym)
 		cls := []string{fmt.Sprintf("senders=%d", ns), fmt.Sprintf("subs=%d", nsub)}
+		if sc.CancelAt > 0 {
+			cls = append(cls, "cancelledWhileSending")
+		}
 		rec.Case("TestC09Tracer", hash, ns >= 2 && nsub >= 1 && jl, cls, sc)
 		if sym != "" {
 			rt.Fatalf("%s", rec.Fail(rec.Failure{Property: prop, Test: "TestC09Tracer", Symptom: sym, Detail: det, Descriptor: sc}))
